@@ -81,6 +81,18 @@ def run(run):
                 f.write(open(p_).read())
                 f.write(json.dumps({"op": "reset"}) + "\n")
         run.validate("trace/Trace_NoPanic.tla", "trace/Trace_NoPanic.cfg", allp, label="others." + profile)
+    # 5. the rounding of durations and differences relative to zoned date-times near transitions (the bounded ZonedRound instance of
+    #    C14: DST pair, 30 min, 24 h skip, 24 h repeat), here read against the outcome alphabet only and in both arithmetic profiles
+    zr, _ = run.gen("mc/MC_ZonedRound.tla", "gen/Gen_C14_zround_q.cfg", workers=8, name="zround", timeout=1500)
+    zo = os.path.join(run.dir, "zround_outcome.cases.ndjson")
+    with open(zr) as f, open(zo, "w") as g:
+        for l in f:
+            c = json.loads(l)
+            c["cls"] = "outcome/" + c["op"]
+            c["out"] = {"kind": "any"}
+            g.write(json.dumps(c) + "\n")
+    for profile, b in (("dev", dev), ("release", rel)):
+        run.replay(b, zo, label="zround_outcome", profile=profile)
     run.cov["public_function_names"] = public_surface()
     run.cov["rule"] = ("replay: the cross product of extreme receivers (range ends, leap days, day 31), extreme durations (2^32-1 calendar units, 2^53-1 s, 2^82 ns, i32::MAX fields), every unit x "
                       "rounding mode x increments up to 1e9 and both overflow options for every arithmetic / difference / rounding / total / compare entry point of PlainDate, PlainDateTime, PlainTime, "
